@@ -3,3 +3,4 @@ pub mod names;
 pub mod msg;
 pub mod tree;
 pub mod scen;
+pub mod num;
